@@ -199,6 +199,8 @@ def _result_unused(fi, node: ast.AST) -> Tuple[bool, str]:
                 if (argn & T) or controlled(n):
                     b = base_name(n.func.value)
                     if b is not None and b not in T and (n.func.attr in CONTAINER_METHODS or argn & T):
+                        if (argn & T) and (b in ("self", "cls") or b in {a.arg for a in fn.args.posonlyargs + fn.args.args + fn.args.kwonlyargs}):
+                            return False, f"`{sorted(argn & T)[0]}` is handed to `{norm(n.func)[:40]}(...)`, outside this function"
                         T.add(b)
                         changed = True
     # every name of T is a fresh local
@@ -386,7 +388,88 @@ def shared_state(chk) -> None:
                 if val is not None and isinstance(val, (ast.List, ast.Dict, ast.Set, ast.ListComp, ast.DictComp, ast.SetComp, ast.Call)) or tgt in globals_decl:
                     n += 1
                     chk.violation("shared-state", fi.site(x), f"`{norm(x)[:70]}` changes the module-level object `{tgt}`: the next call in the same process starts from another state, so repeated calls on the same input differ", key=f"{mod.name}:{fi.qualname}:shared:{tgt}")
-    chk.ok("shared-state", "package", "no function mutates a module-level container or rebinds a global")
+    foreign_state(chk)
+    chk.ok("shared-state", "package", "no function mutates a module-level container or rebinds a global; none assigns to an attribute of a module or of a class (state that outlives the call)")
+
+
+def foreign_state(chk) -> None:
+    """State that belongs to a module or a class outlives every call: `pulp.LpSolverDefault = None`, `sys.setrecursionlimit`-like
+    assignments `module.NAME = value`, `os.environ[...] = value`, `Class.attribute = value`, `module.TABLE.append(...)`, setattr(module, ...).
+    After such a statement - wherever it stands: a normal path, an exception handler, a fallback - every later call in the process runs
+    with other settings than a fresh process, so the output of a structure depends on what was processed before it."""
+    repo = chk.repo
+    for fi in repo.all_funcs():
+        mod = fi.module
+        local = {a.arg for a in fi.node.args.posonlyargs + fi.node.args.args + fi.node.args.kwonlyargs}
+        for x in ast.walk(fi.node):
+            if isinstance(x, ast.Name) and isinstance(x.ctx, ast.Store):
+                local.add(x.id)
+
+        def owner(e: ast.AST):
+            """('module' | 'class', text) when the attribute / subscript chain e is rooted in an imported module or a class of the package"""
+            chain = e
+            while isinstance(chain, (ast.Attribute, ast.Subscript)):
+                chain = chain.value
+            if not isinstance(chain, ast.Name) or chain.id in local:
+                return None
+            nm = chain.id
+            if nm in mod.imports:
+                src, orig = mod.imports[nm]
+                if orig is None:
+                    return "module", src
+                full = f"{src}.{orig}"
+                if full.split(".")[-1] in repo.modules and src.split(".")[0] == "rnapolis":
+                    return "module", full
+                try:
+                    hm, hn = repo.const_home(mod.name, nm)
+                    if hn in repo.modules[hm].classes:
+                        return "class", hn
+                except Exception:
+                    pass
+                if orig in ("environ", "path", "modules", "argv"):
+                    return "module", full
+                return None
+            if nm in mod.classes:
+                return "class", nm
+            return None
+
+        for x in ast.walk(fi.node):
+            hit = None
+            if isinstance(x, (ast.Assign, ast.AugAssign, ast.AnnAssign, ast.Delete)):
+                tgts = x.targets if isinstance(x, (ast.Assign, ast.Delete)) else [x.target]
+                for t in tgts:
+                    for t2 in (t.elts if isinstance(t, (ast.Tuple, ast.List)) else [t]):
+                        if isinstance(t2, (ast.Attribute, ast.Subscript)):
+                            o = owner(t2)
+                            if o is not None:
+                                hit = (o, t2)
+            elif isinstance(x, ast.Call) and isinstance(x.func, ast.Name) and x.func.id in ("setattr", "delattr") and x.args:
+                o = owner(ast.Attribute(value=x.args[0], attr="_", ctx=ast.Load())) if isinstance(x.args[0], (ast.Name, ast.Attribute)) else None
+                if o is not None:
+                    hit = (o, x.args[0])
+            elif isinstance(x, ast.Call) and isinstance(x.func, ast.Attribute) and x.func.attr in MUT and isinstance(x.func.value, (ast.Attribute, ast.Subscript)):
+                o = owner(x.func.value)
+                if o is not None and o[0] == "module":
+                    hit = (o, x.func.value)
+            if hit is None:
+                continue
+            (kind, name), tgt = hit
+            if kind == "class" and fi.cls is not None and fi.cls.name == name and fi.node.name in ("__init_subclass__", "__class_getitem__"):
+                continue
+            handler = ""
+            par = astq.parents(fi.node)
+            p = par.get(id(x))
+            while p is not None:
+                if isinstance(p, ast.ExceptHandler):
+                    handler = f" inside the handler `except {norm(p.type) if p.type is not None else ''}`: one fault changes how every later input of the process is treated;"
+                    break
+                p = par.get(id(p))
+            chk.violation(
+                "shared-state",
+                fi.site(x),
+                f"`{norm(x)[:70]}` writes `{norm(tgt)[:40]}`, state of the {kind} `{name}` that outlives the call{handler or ':'} the next call in the same process runs with other settings than a fresh process, so repeated calls / other structures in one run differ from fresh interpreters",
+                key=f"{mod.name}:{fi.qualname}:foreign:{norm(tgt)[:40]}",
+            )
 
 
 def query_effects(chk) -> None:
@@ -451,6 +534,32 @@ def memo_external(chk) -> None:
     chk.ok("memo-external-state", "package", f"{n} memoised functions (lru_cache / cache, as decorator or wrapped at module level): none reads the file system, the environment, the clock or standard input, directly or through package functions it calls")
 
 
+def borrowed_arrays(chk) -> None:
+    """An array kept by an object (a cached_property, a field) is that object's state: an in-place numpy operation through a name that
+    merely aliases it (`acc = atom.coordinates; acc += ...`) changes it for every later reader, so a query asked twice - or asked after
+    another query - answers differently (sa/alias.py, origin analysis over the package)."""
+    from sa import alias
+
+    try:
+        found, attrs, n_funcs = alias.findings(chk.repo)
+    except Exception as ex:
+        chk.error("borrowed-array-write", "package", f"alias analysis failed: {type(ex).__name__}: {str(ex)[:120]}")
+        return
+    k = 0
+    for fi, node, name, src, attr, op in found:
+        if attr == "parameter":
+            continue  # writing into a caller's array can be a function's contract; the owner-state case is the one that makes calls history dependent
+        k += 1
+        chk.violation(
+            "borrowed-array-write",
+            fi.site(node),
+            f"{op} `{name}`, which aliases {src} ({'; '.join(attrs.get(attr, [])[:2])}): the object's own array is changed for good, so every value computed from it afterwards - in this call or a later one in the same process - differs from what a fresh process computes for the same input",
+            key=f"{fi.module.name}:{fi.qualname}:borrowed:{attr}:{name}",
+        )
+    if k == 0:
+        chk.ok("borrowed-array-write", "package", f"{n_funcs} functions read; arrays kept per object: {sorted(attrs)}; no in-place numpy operation reaches one of them through an alias")
+
+
 def run(chk) -> None:
     chk.explanation = (
         "Iteration-order taint analysis over every function of the package: light type inference (annotations, constructors, adds, "
@@ -467,7 +576,7 @@ def run(chk) -> None:
     )
     chk.trusted = ["CPython: set iteration order is a function of the hashes and the insertion history", "scipy/pulp/pandas/mmcif internals are deterministic", "dict and OrderedSet preserve insertion order"]
     chk.assumptions = ["int/float/tuple-of-int hashes do not depend on PYTHONHASHSEED"]
-    chk.robust |= {"order-taint", "nondeterministic-value", "receiver-write", "cache-introspection", "shared-state", "query-write", "run-dependent-name", "memo-external-state"}
+    chk.robust |= {"order-taint", "nondeterministic-value", "receiver-write", "cache-introspection", "shared-state", "query-write", "run-dependent-name", "memo-external-state", "borrowed-array-write"}
     n = analyse(chk, chk.repo, None, "package")
     # repeated calls: no query changes the object it is asked on, none looks at the cache, no module-level container is consumed
     from checks import c12
@@ -477,6 +586,7 @@ def run(chk) -> None:
     shared_state(chk)
     run_values(chk)
     memo_external(chk)
+    borrowed_arrays(chk)
     if n < 8:
         chk.error("order-taint", "-", f"only {n} set-typed iteration sites recognised (9 confirmed on the pinned tree): the type inference lost track of the sets")
 
